@@ -32,7 +32,7 @@ def run(ctx):
                 t = r.term
                 if t[0] == "method" and t[1] == "longest_matching_prefix_value" and t[3]:
                     key = t[3][0]
-            ctx.ob("R1", name + "/answers-longest-prefix", key is not None, "LRUTrie.%s does not return trie.longest_matching_prefix_value(stems)" % name, site)
+            ctx.ob("R1", name + "/answers-longest-prefix", key is not None, "LRUTrie.%s does not return trie.longest_matching_prefix_value(stems)" % name, site, cells=T.lrutrie_cells(ctx))
         else:
             for k, v in st.env.items():
                 if isinstance(v, tuple) and v and v[0] == "mut" and v[1] == "setitem":
@@ -43,21 +43,21 @@ def run(ctx):
                     if isinstance(node, ast.Assign) and isinstance(node.targets[0], ast.Subscript) and isinstance(node.targets[0].slice, ast.Name):
                         key = st.env.get(node.targets[0].slice.id)
                         val = node.value
-                        ctx.ob("R1", name + "/stores-the-metadata", isinstance(val, ast.Name) and val.id == "metadata", "LRUTrie.%s stores `%s`, not the metadata" % (name, unparse(val)), site)
-            ctx.ob("R1", name + "/stores-through-assignment", key is not None, "LRUTrie.%s does not store through trie[stems] = metadata" % name, site)
+                        ctx.ob("R1", name + "/stores-the-metadata", isinstance(val, ast.Name) and val.id == "metadata", "LRUTrie.%s stores `%s`, not the metadata" % (name, unparse(val)), site, cells=T.lrutrie_cells(ctx))
+            ctx.ob("R1", name + "/stores-through-assignment", key is not None, "LRUTrie.%s does not store through trie[stems] = metadata" % name, site, cells=T.lrutrie_cells(ctx))
         if key is None:
             continue
         key = P.strip_inl(key)
         ok = key[0] == "call" and key[1] == CLEAN and len(key[2]) == 1
         ctx.ob("R1", name + "/key-cleaned", ok, "LRUTrie.%s keys the trie with %s: empty path stems are not dropped, so a stored url and the same url with/without a trailing slash are different keys" % (name, P.show(key, maxdepth=3)), site,
-               witness="set('http://a.com/x/'); match('http://a.com/x')")
+               witness="set('http://a.com/x/'); match('http://a.com/x')", cells=T.lrutrie_cells(ctx))
         if ok:
             inner = key[2][0]
             if source == "tokenize":
                 good = inner[0] == "method" and inner[1] == "tokenize" and inner[2] == ("param", "self") and inner[3] == (("param", "url"),)
             else:
                 good = inner[0] == "call" and inner[1] == "ural.lru.trie.ensure_lru_stems" and inner[2] == (("param", "lru"),)
-            ctx.ob("R1", name + "/key-source", good, "LRUTrie.%s builds its key from %s" % (name, P.show(inner, maxdepth=3)), site)
+            ctx.ob("R1", name + "/key-source", good, "LRUTrie.%s builds its key from %s" % (name, P.show(inner, maxdepth=3)), site, cells=T.lrutrie_cells(ctx))
     # clean_trailing_path
     cref = tr.func("clean_trailing_path")
     ctx.fn(cref.qualname)
